@@ -294,7 +294,7 @@ func c11Classify(c *C11Case, ty reflect.Type, jitErr, optErr error, jv, ov refle
 			return "C19-minus-zero-integer-literal"
 		}
 	}
-	if jv.IsValid() && ov.IsValid() && len(c.Prefill) > 0 && strings.Contains(string(c.Doc), "null") && knownListed("C11-optdec-bytes-array-null-prefilled") {
+	if jv.IsValid() && ov.IsValid() && (len(c.Prefill) > 0 || len(ref.EarlierDuplicatesFold(c.Doc)) > 0) && strings.Contains(string(c.Doc), "null") && knownListed("C11-optdec-bytes-array-null-prefilled") {
 		if c19LeafDiffsAll(jv, ov, func(x, y reflect.Value) bool { return x.Kind() == reflect.Uint8 && y.Uint() == 0 }) {
 			return "C11-optdec-bytes-array-null-prefilled"
 		}
@@ -384,7 +384,8 @@ func (c *C11Case) classifyMerge(ty reflect.Type, api sonic.API, which int) strin
 	if !knownListed("C11-optdec-no-in-place-merge") {
 		return ""
 	}
-	dups := ref.EarlierDuplicates(c.Doc)
+	// (keys that differ only in case bind to the same struct field: duplicates as far as merging is concerned)
+	dups := ref.EarlierDuplicatesFold(c.Doc)
 	if len(dups) == 0 && len(c.Prefill) == 0 {
 		return ""
 	}
